@@ -2024,6 +2024,41 @@ pub fn get_random_module(&self, source: &mut GenerationSource) -> (r: Result<VfT
         }
 //@endfn
 
+//@fn src/generator/mod.rs Generator::generate
+//@ret res
+//@props C07 C08 C09
+//@sigsubst Result<Vec<u8>> => Result<Vec<u8>, VfError>
+//@subst ChaCha8Rng::seed_from_u64(seed) => vf_rng_seed_from_u64(seed)
+//@subst ChaCha8Rng::from_os_rng() => vf_rng_from_os()
+//@subst GenerationSource::Rand(&mut rng) => vf_source_rand(&mut rng)
+//@contract
+    requires
+        !old(self).unsafe_mutations,
+        old(self).min_opcodes < 0x1_0000_0000 && old(self).max_opcodes < 0x1_0000_0000,
+    ensures
+        res is Ok, // @C09
+//@before 1 self.generate_internal(
+        // C07: with a seed set, the only entropy of the call is the ChaCha8 stream of that seed
+        proof { assert(old(self).seed is Some ==> source.origin() == VfOrigin::Seed(old(self).seed->Some_0)); } // @C07
+//@endfn
+
+//@fn src/generator/mod.rs Generator::generate_from_arbitrary
+//@ret res
+//@props C07 C08 C09
+//@sigsubst Result<Vec<u8>> => Result<Vec<u8>, VfError>
+//@subst Unstructured::new(data) => vf_unstructured_new(data)
+//@subst GenerationSource::Arbitrary(&mut u) => vf_source_arbitrary(&mut u)
+//@contract
+    requires
+        !old(self).unsafe_mutations,
+        old(self).min_opcodes < 0x1_0000_0000 && old(self).max_opcodes < 0x1_0000_0000,
+    ensures
+        res is Ok, // @C09
+//@before 1 self.generate_internal(
+        // C07: the only entropy of the call is the caller's byte string
+        proof { assert(source.origin() == VfOrigin::Bytes(data@)); } // @C07
+//@endfn
+
 }
 
 } // verus!
